@@ -265,8 +265,28 @@ def vacuity() -> None:
          f'missing {missing}' if missing else f'{r.distinct} states')
 
 
+def confluence_binding() -> None:
+    from harness import confluence as c
+    j = c.batches('quick', 1)[1]
+    r = c.check_batch(j)
+    item('Comm is persistent + commutative on small-scope program sets',
+         r['ok'], f"{r.get('program_sets')} program sets, "
+         f"{r.get('diamonds')} diamonds")
+    r = c.check_batch(j + ((
+        "completed[Op(r).g] >= Op(r).i\n    /\\ pc'",
+        "completed[Op(r).g] = Op(r).i\n    /\\ pc'"),))
+    item('confluence check rejects a Wait that Complete can disable',
+         not r['ok'], str(r.get('why')))
+    r = c.check_batch(j + ((
+        "/\\ inflight' = [inflight EXCEPT ![g] = Tail(@)]",
+        "/\\ inflight' = [inflight EXCEPT ![g] = <<>>]"),))
+    item('confluence check rejects a Complete that drops later slots',
+         not r['ok'], str(r.get('why')))
+
+
 def main() -> int:
     comm_binding()
+    confluence_binding()
     kfacdist_binding()
     gptdist_binding()
     trace_binding()
